@@ -90,7 +90,8 @@ impl Drop for TlsVal {
                     // is initialised *during* thread-local destruction is dropped by loom outside the
                     // execution, where its destructor must not touch loom again.)
                     let r = K1.try_with(|v| v.id);
-                    COUNTERS.with(|c| c.tls_obs[0].set(if r.is_ok() { 1 } else { 2 }));
+                    // (or-ed: the counter is shared by all threads and must not depend on which destructor ran last)
+                    COUNTERS.with(|c| c.tls_obs[0].set(c.tls_obs[0].get() | if r.is_ok() { 1 } else { 2 }));
                 }
                 _ => {}
             }
@@ -115,9 +116,17 @@ impl LazyVal {
             c.lazy_inits[key].set(c.lazy_inits[key].get() + 1);
             c.lazy_inits[key].get()
         });
-        LAZY_LIVE.with(|l| l[key].set((l[key].get().0 + 1, l[key].get().1)));
+        // a scheduling point inside the initialiser (`x0.fetch_add(1, Relaxed)`, which also counts the runs of the
+        // initialiser): two threads can both find the static uninitialised
+        let w = CUR_WORLD.with(|cw| cw.borrow().clone());
+        if let Some(w) = w {
+            if w.prog.cfg.n_atomics > 0 {
+                w.atomic_fadd_rlx(0, 1);
+            }
+        }
         let cell = loom::cell::UnsafeCell::new(0);
         cell.with_mut(|p| unsafe { *p = 40 + key as i128 });
+        LAZY_LIVE.with(|l| l[key].set((l[key].get().0 + 1, l[key].get().1)));
         LazyVal { key, id: id as i128, cell }
     }
 }
